@@ -211,6 +211,9 @@ func bubble(c *explore.Ctx, pc *world.ProducerChain) (out outcome) {
 
 func TestCheck(t *testing.T) {
 	r := vf.Start("C05", "fault_enumeration")
+	if r.RunShards(16) { // bubble-heavy: one process per shard of the exploration
+		return
+	}
 	nAbove := vf.Pick(r, 2, 3)
 	budgets := vf.Pick(r, map[string]int{"crash": 2, "order": 2}, map[string]int{"crash": 2, "order": 4})
 	r.Assume = []string{
